@@ -1,7 +1,332 @@
 import Driver.Common
-open Lean Drv
+import NriModel.Locks
+open Lean Drv Nri Nri.Mutex
+
+/-!
+Driver for C19. One case = one concurrent run of a real `Adaptation` with real stub plugins:
+`in`  = the plan: every `Stub.UpdateContainers` call (plugin, list of updates as hex of their
+        deterministic wire encoding) with the scripted result of the runtime's `UpdateFn`
+        (failed list, error), and the generator configuration;
+`obs` = the log, stamped by one global counter: every `UpdateFn` invocation (entry, exit, the
+        list it received), every stub call (before, after, what it returned), every plugin
+        request-handler invocation (entry, exit).
+
+`agree` = trace acceptance by `Nri.Mutex.step?`: calls, `enter`/`fn`/`leave` at the UpdateFn
+          stamps, `reqBegin`/`handler`/`reqEnd` around each request's handler stamps, `ret` with
+          the value the plugin saw.
+`spec`  = the property evaluated directly on the log: every returned call has exactly one
+          UpdateFn invocation, with exactly the list sent; the plugin saw exactly the scripted
+          failed list, or exactly the scripted error and no list; no UpdateFn interval overlaps
+          another UpdateFn interval or a request's handler span; nothing blocked; a never-started
+          stub answered "no service".
+-/
 namespace Drv.C19
-/-- placeholder until the property's driver is written -/
-def judge (_ : Json) : Except String Verdict := .error "C19 driver not implemented"
+
+abbrev A := String
+abbrev E := Nat × String
+
+structure CallI where
+  u : Nat
+  p : Nat
+  list : List String
+  failed : List String
+  err : Option E
+  deriving Inhabited
+
+structure FnO where
+  sin : Nat
+  sout : Nat
+  token : Int
+  list : List String
+  deriving Inhabited
+
+structure CallO where
+  u : Nat
+  s1 : Nat
+  s2 : Nat
+  done : Bool
+  failed : List String
+  err : Option E
+  deriving Inhabited
+
+structure HO where
+  r : Nat
+  p : Nat
+  sin : Nat
+  sout : Nat
+  deriving Inhabited
+
+def arrOf (j : Json) (k : String) : Except String (Array Json) :=
+  match j.getObjVal? k with
+  | .ok (.arr a) => pure a
+  | .ok .null => pure #[]
+  | _ => throw s!"field {k}: not an array"
+
+def errIn (j : Json) : Option E :=
+  match getOpt j "err" with
+  | none => none
+  | some e =>
+    let plain := getBoolD e "plain"
+    some (if plain then 2 else getNatD e "code", getStrD e "msg")
+
+def errObs (j : Json) : Option E :=
+  match getOpt j "err" with
+  | none => none
+  | some e =>
+    let c := getIntD e "code"
+    some (if c < 0 then 1000000 else c.toNat, getStrD e "msg")
+
+def showErr : Option E → String
+  | none => "nil"
+  | some (c, m) => s!"(code {c}, {m.quote})"
+
+def showOut (o : List A × Option (StubErr E)) : String :=
+  let e := match o.2 with
+    | none => "nil"
+    | some .noService => "ErrNoService"
+    | some (.rpc x) => showErr (some x)
+  s!"({o.1.length} failed, {e})"
+
+structure Item where
+  key : Nat
+  sub : Nat
+  ev : Ev A E
+
+def judgeLone (inp obs : Json) (kind : String) : Except String Verdict := do
+  let result := getStrD obs "result"
+  let listen := getBoolD inp "listen"
+  let calls ← arrOf inp "calls"
+  let list ← match calls[0]? with
+    | some c => getStrList c "list"
+    | none => pure []
+  let cover := [s!"kind:{kind}", s!"lone:{result}", s!"listen:{listen}", s!"lone-list:{list.length}"]
+  if kind == "unstarted" then
+    -- model: the step is enabled in the initial state with exactly this answer
+    let modelOut := stubUpdate (none : Option (List A → Option (List A) × Option E)) list
+    let accepted := (run (init : State A E) [.callUnstarted 0 list ([], some .noService)]).isSome
+    let spec := result == "noservice"
+    pure { agree := accepted && (modelOut == ([], some .noService)) == (result == "noservice"), spec := spec,
+           why := if spec then "" else s!"UpdateContainers on a never-started stub: {result} ({getStrD obs "note"})",
+           sig := if spec then "" else s!"C19:noservice:{result}",
+           cover := cover, nontrivial := true }
+  else
+    -- started-then-stopped stub: outside the property (it says nothing about a stopped stub);
+    -- the model's wrapper has a runtime client whose call fails: an error, at once
+    let modelOut := stubUpdate (some (fun (_ : List A) => ((none : Option (List A)), some ((0, "closed") : E)))) list
+    let agree := (modelOut.2.isSome && modelOut.1.isEmpty) == (result == "error")
+    pure { agree := agree, spec := true, excluded := true, sig := s!"stopped-stub:{result}",
+           why := if agree then "" else s!"UpdateContainers on a stopped stub: {result}", cover := cover }
+
+def judge (j : Json) : Except String Verdict := do
+  let inp ← getObj j "in"
+  let obs ← getObj j "obs"
+  let kind := getStrD inp "kind"
+  let status := getStrD obs "status"
+  let note := getStrD obs "note"
+  if kind == "worker" || status == "crashed" then
+    return { agree := false, spec := true, why := s!"harness worker crashed: {note}", cover := ["crashed"] }
+  if status == "error" then
+    return { agree := false, spec := true, why := s!"harness error: {note}", cover := ["error"] }
+  if kind == "unstarted" || kind == "stopped" then
+    return ← judgeLone inp obs kind
+  -- decode
+  let callsI ← (← arrOf inp "calls").mapM fun c => do
+    pure { u := ← getNat c "u", p := ← getNat c "p", list := ← getStrList c "list",
+           failed := ← getStrList c "failed", err := errIn c : CallI }
+  let fns ← (← arrOf obs "fn").mapM fun f => do
+    pure { sin := ← getNat f "in", sout := ← getNat f "out", token := ← getInt f "token",
+           list := ← getStrList f "list" : FnO }
+  let callsO ← (← arrOf obs "calls").mapM fun c => do
+    pure { u := ← getNat c "u", s1 := getNatD c "s1", s2 := getNatD c "s2", done := getBoolD c "done",
+           failed := ← getStrList c "failed", err := errObs c : CallO }
+  let hs ← (← arrOf obs "h").mapM fun h => do
+    pure { r := ← getNat h "r", p := ← getNat h "p", sin := ← getNat h "in", sout := ← getNat h "out" : HO }
+  let nU := callsI.size
+  -- index by u (ids are dense 0..nU-1)
+  let mut ci : Array CallI := Array.replicate nU default
+  for c in callsI do
+    if c.u < nU then ci := ci.set! c.u c
+  let mut co : Array CallO := Array.replicate nU default
+  for c in callsO do
+    if c.u < nU then co := co.set! c.u c
+  -- ===== assign UpdateFn invocations to calls =====
+  let mut fnOf : Array (List Nat) := Array.replicate nU []     -- indices into fns
+  let mut unknownFn : Option Nat := none
+  -- empty-list calls in order of their start
+  let empties := (callsI.filter (fun c => c.list.isEmpty)).map (·.u)
+  let emptiesSorted := empties.qsort (fun a b => (co[a]!).s1 < (co[b]!).s1)
+  let mut usedEmpty : Array Bool := Array.replicate nU false
+  let mut fi := 0
+  for f in fns do
+    if f.token ≥ 0 && f.token.toNat < nU then
+      fnOf := fnOf.modify f.token.toNat (fi :: ·)
+    else if f.token == -1 then
+      -- an invocation with an empty list can belong to any empty-list call that was pending
+      -- around it (s1 < entry, exit < s2); earliest deadline first is a maximum matching
+      -- because the invocations are disjoint and processed in time order
+      let mut pick : Option Nat := none
+      for u in emptiesSorted do
+        let o := co[u]!
+        if !usedEmpty[u]! && o.s1 != 0 && o.s1 < f.sin && (!o.done || f.sout < o.s2) then
+          match pick with
+          | none => pick := some u
+          | some v =>
+            let ov := co[v]!
+            let dv := if ov.done then ov.s2 else 0xffffffffffff
+            let du := if o.done then o.s2 else 0xffffffffffff
+            if du < dv then pick := some u
+      match pick with
+      | some u => usedEmpty := usedEmpty.set! u true; fnOf := fnOf.modify u (fi :: ·)
+      | none => unknownFn := some fi
+    else unknownFn := some fi
+    fi := fi + 1
+  -- ===== the property, directly on the log =====
+  let mut ok := true
+  let mut sig := ""
+  let mut why := ""
+  let fail (ok : Bool) (sig why : String) (s w : String) : Bool × String × String :=
+    if ok then (false, s, w) else (false, sig, why)
+  if status == "blocked" then
+    (ok, sig, why) := fail ok sig why "C19:blocked" s!"calls still pending: {note}"
+  match unknownFn with
+  | some i =>
+    (ok, sig, why) := fail ok sig why "C19:once:spurious-invocation"
+      s!"UpdateFn was invoked (seq {(fns[i]!).sin}) with a list of {(fns[i]!).list.length} updates that no pending call sent"
+  | none => pure ()
+  let mut cover : List String := ["trace", s!"kind:{kind}", s!"procs:{getNatD inp "procs"}", s!"P:{getNatD inp "P"}",
+    s!"G:{getNatD inp "G"}", s!"early:{getBoolD inp "early"}"]
+  let mut nErr := 0
+  let mut nOk := 0
+  for u in [0:nU] do
+    let c := ci[u]!
+    let o := co[u]!
+    if !o.done then
+      (ok, sig, why) := fail ok sig why "C19:blocked" s!"call {u} of plugin {c.p} never returned"
+    else
+      let inv := fnOf[u]!
+      if inv.length == 0 then
+        (ok, sig, why) := fail ok sig why "C19:once:not-delivered" s!"call {u} of plugin {c.p} returned but UpdateFn never ran for it"
+      else if inv.length > 1 then
+        (ok, sig, why) := fail ok sig why "C19:once:delivered-twice" s!"UpdateFn ran {inv.length} times for call {u} of plugin {c.p}"
+      else
+        let f := fns[inv.head!]!
+        if f.list != c.list then
+          (ok, sig, why) := fail ok sig why "C19:passthrough:argument"
+            s!"call {u}: the plugin sent {c.list.length} updates, UpdateFn received {f.list.length}{if f.list.length == c.list.length then " (different content or order)" else ""}"
+      -- the result, against the script
+      match c.err with
+      | none =>
+        nOk := nOk + 1
+        if o.err.isSome then
+          (ok, sig, why) := fail ok sig why "C19:passthrough:spurious-error"
+            s!"call {u}: UpdateFn succeeded, the plugin got error {showErr o.err}"
+        else if o.failed != c.failed then
+          (ok, sig, why) := fail ok sig why "C19:passthrough:failed-list"
+            s!"call {u}: UpdateFn returned {c.failed.length} failed updates, the plugin got {o.failed.length}{if o.failed.length == c.failed.length then " (different content or order)" else ""}"
+      | some e =>
+        nErr := nErr + 1
+        if o.err != some e then
+          (ok, sig, why) := fail ok sig why (if o.err.isNone then "C19:passthrough:error-swallowed" else "C19:passthrough:error-changed")
+            s!"call {u}: UpdateFn failed with {showErr (some e)}, the plugin got {showErr o.err}"
+        else if !o.failed.isEmpty then
+          (ok, sig, why) := fail ok sig why "C19:passthrough:list-with-error"
+            s!"call {u}: UpdateFn failed, yet the plugin got {o.failed.length} failed updates"
+  -- critical intervals: UpdateFn invocations and request handler spans
+  let maxR := hs.foldl (fun m h => max m (h.r + 1)) 0
+  let mut rFirst : Array Nat := Array.replicate maxR 0
+  let mut rLast : Array Nat := Array.replicate maxR 0
+  for h in hs do
+    if rFirst[h.r]! == 0 || h.sin < rFirst[h.r]! then rFirst := rFirst.set! h.r h.sin
+    if h.sout > rLast[h.r]! then rLast := rLast.set! h.r h.sout
+  -- (start, end, label)
+  let mut ivs : Array (Nat × Nat × String) := #[]
+  for f in fns do
+    ivs := ivs.push (f.sin, f.sout, s!"UpdateFn(seq {f.sin}..{f.sout})")
+  for r in [0:maxR] do
+    if rFirst[r]! != 0 then ivs := ivs.push (rFirst[r]!, rLast[r]!, s!"request {r} (handlers seq {rFirst[r]!}..{rLast[r]!})")
+  ivs := ivs.qsort (fun a b => a.1 < b.1)
+  let mut maxEnd := 0
+  let mut maxLbl := ""
+  for (a, b, l) in ivs do
+    if a < maxEnd then
+      let isFn := l.startsWith "UpdateFn" || maxLbl.startsWith "UpdateFn"
+      if isFn then
+        (ok, sig, why) := fail ok sig why
+          (if l.startsWith "UpdateFn" && maxLbl.startsWith "UpdateFn" then "C19:exclusive:two-updates" else "C19:exclusive:update-vs-request")
+          s!"{l} ran concurrently with {maxLbl}"
+      else
+        (ok, sig, why) := fail ok sig why "C19:exclusive:two-requests" s!"{l} ran concurrently with {maxLbl}"
+    if b > maxEnd then
+      maxEnd := b
+      maxLbl := l
+  -- contention actually present? a call is contended if some critical interval of somebody
+  -- else was open between its start and its own UpdateFn entry
+  let mut contended := 0
+  for u in [0:nU] do
+    match fnOf[u]! with
+    | [i] =>
+      let f := fns[i]!
+      let s1 := (co[u]!).s1
+      if ivs.any (fun (a, b, _) => a != f.sin && a < f.sin && b > s1) then contended := contended + 1
+    | _ => pure ()
+  -- ===== trace acceptance =====
+  let mut items : Array Item := #[]
+  for u in [0:nU] do
+    let c := ci[u]!
+    let o := co[u]!
+    if o.s1 != 0 then items := items.push { key := 4 * o.s1, sub := 0, ev := .call u c.p c.list }
+    if o.done then
+      items := items.push { key := 4 * o.s2, sub := 0, ev := .ret u (o.failed, o.err.map .rpc) }
+    for i in fnOf[u]! do
+      let f := fns[i]!
+      items := items.push { key := 4 * f.sin, sub := 0, ev := .enter u }
+      items := items.push { key := 4 * f.sout, sub := 0, ev := .fn u f.list ⟨c.failed, c.err⟩ }
+      items := items.push { key := 4 * f.sout, sub := 1, ev := .leave u }
+  for r in [0:maxR] do
+    if rFirst[r]! != 0 then
+      items := items.push { key := 4 * rFirst[r]! - 1, sub := 0, ev := .reqBegin r }
+      items := items.push { key := 4 * rLast[r]! + 1, sub := 0, ev := .reqEnd r }
+  for h in hs do
+    items := items.push { key := 4 * h.sin, sub := 0, ev := .handler h.r h.p }
+  items := items.qsort (fun a b => a.key < b.key || (a.key == b.key && a.sub < b.sub))
+  let mut s : State A E := init
+  let mut rej : Option String := none
+  let mut idx := 0
+  for it in items do
+    if rej.isNone then
+      match step? s it.ev with
+      | some s' => s := s'
+      | none =>
+        let d := match it.ev with
+          | .call u _ _ => s!"call {u}"
+          | .enter u => s!"UpdateFn entered for call {u}"
+          | .fn u arg _ => s!"UpdateFn ran for call {u} with {arg.length} updates"
+          | .leave u => s!"UpdateFn returned for call {u}"
+          | .ret u out => s!"call {u} returned {showOut out}"
+          | .reqBegin r => s!"request {r} began"
+          | .handler r p => s!"handler of plugin {p} for request {r}"
+          | .reqEnd r => s!"request {r} ended"
+          | .callUnstarted _ _ _ => "unstarted"
+        let holder := match s.mu with
+          | none => "nobody"
+          | some (.req r) => s!"request {r}"
+          | some (.upd u) => s!"update call {u}"
+        rej := some s!"the mutex model refuses event #{idx} at seq {(it.key + 1) / 4}: {d} (mutex held by {holder})"
+    idx := idx + 1
+  let mut agreeWhy := rej.getD ""
+  if agreeWhy == "" && unknownFn.isSome then agreeWhy := "an UpdateFn invocation matches no call"
+  if agreeWhy == "" && status == "ok" && (s.mu.isSome || !s.inside.isEmpty) then
+    agreeWhy := "history ends with the adaptation mutex held"
+  cover := s!"contended:{if contended == 0 then "0" else if contended < 10 then "1-9" else ">=10"}" :: cover
+  cover := (if nErr > 0 then ["result:error"] else []) ++ (if nOk > 0 then ["result:ok"] else []) ++ cover
+  if callsI.any (fun c => c.list.isEmpty) then cover := "list:empty" :: cover
+  if callsI.any (fun c => c.list.length ≥ 5) then cover := "list:>=5" :: cover
+  if callsI.any (fun c => c.err.isNone && !c.failed.isEmpty) then cover := "failed:nonempty" :: cover
+  if callsI.any (fun c => c.err.isSome && !c.failed.isEmpty) then cover := "failed:with-error" :: cover
+  pure { agree := agreeWhy == "", spec := ok, why := if !ok then why else agreeWhy, sig := sig, cover := cover,
+         nontrivial := contended > 0,
+         model := Json.mkObj [("calls", nU), ("invocations", fns.size), ("handlers", hs.size),
+                              ("contended", contended), ("accepted", rej.isNone)] }
+
 def main : IO UInt32 := runLines judge
 end Drv.C19
